@@ -136,13 +136,40 @@ func c20TM(r *rand.Rand, g *Gram, name string, o TMOpts) string {
 	return sb.String()
 }
 
-// c20XInfo is xinfoStr with one repair that mirrors go_parser.go.tmpl: the `switch rule` of applyRule
-// (which holds the fixTrailingWS calls) is only emitted when the parser has actions (a nested
-// report, code or a lookahead rule); for a grammar with whole-rule arrows only, `fixWhitespace = true`
-// has no effect on the rule nodes (finding reported with C20; it does not affect nesting).
+// c20FixWSGuard is decided by a probe in the first batch (witness grammar
+// `N0: %empty -> R0 | 'a' 'a' N0 -> R1` with fixWhitespace, text "aa "): true while go_parser.go.tmpl
+// emits the `switch rule` of applyRule (which holds the fixTrailingWS calls) only for parsers with
+// actions, so that `fixWhitespace = true` has no effect on a grammar with whole-rule arrows only
+// (R1 reported as 0:3 instead of 0:2). Nesting is not affected; only the replay by the model is.
+var c20FixWSGuard = false
+
+const c20WitnessTM = `language wfix(go);
+
+lang = "wfix"
+package = "gp/wfix"
+eventBased = true
+fixWhitespace = true
+
+::lexer
+
+WhiteSpace: /[ ]+/ (space)
+'a': /a/
+
+::parser
+
+%input N0;
+
+N0 :
+    %empty -> R0
+  | 'a' 'a' N0 -> R1
+;
+`
+
+// c20XInfo is xinfoStr, with the per-rule fixWS flags cleared for parsers without actions while the
+// probe says the template guard is in place.
 func c20XInfo(gp *GenParser) string {
 	s := xinfoStr(gp)
-	if gp.G.Parser.HasActions() {
+	if !c20FixWSGuard || gp.G.Parser.HasActions() {
 		return s
 	}
 	fields := strings.SplitN(s, " ", 2)
@@ -238,6 +265,15 @@ func c20Generated(c *Ctx) {
 			b.Close()
 			continue
 		}
+		var witness *GenParser
+		if done == 0 {
+			if w := compileTM("wfix", c20WitnessTM, TMOpts{FixWhitespace: true, Space: true}); w.Err == nil {
+				witness = w
+				b.Add(w)
+			} else {
+				c.Notes = append(c.Notes, "C20: fixWhitespace witness grammar rejected: "+errSummary(w.Err))
+			}
+		}
 		if err := b.Build(); err != nil {
 			c.Violate("generated parsers do not build: "+err.Error(), items[0].gp.TM)
 			b.Close()
@@ -265,8 +301,22 @@ func c20Generated(c *Ctx) {
 				}
 			}
 		}
+		if witness != nil {
+			reqs = append(reqs, RunReq{Parser: "wfix", Input: 0, Text: "aa "})
+		}
 		outs := b.Run(reqs)
 		b.Close()
+		if witness != nil {
+			switch w := outs[len(outs)-1]; {
+			case strings.HasSuffix(w, ":0:3 ok"):
+				c20FixWSGuard = true
+				c.Count("generated: probe: fixWhitespace has no effect without actions (template guard in place)")
+			case strings.HasSuffix(w, ":0:2 ok"):
+				c.Count("generated: probe: fixWhitespace trims rule nodes without actions")
+			default:
+				c.Notes = append(c.Notes, "C20: unexpected trace of the fixWhitespace witness: "+w)
+			}
+		}
 		hypDone := map[string]int{}
 		for i, m := range metas {
 			gp := m.it.gp
